@@ -333,13 +333,11 @@ void h_copy(void) {
 
 /* swap with element sizes across the 128-byte slice boundary (ISZ fixed per job) */
 #ifdef ISZ
-void h_swap(void) {
+static void swap_case(size_t a, size_t b) {
     enum { CNT = 3 };
     struct aws_array_list l;
     uint8_t *store = verif_malloc(CNT * ISZ);
     aws_array_list_init_static_from_initialized(&l, store, CNT, ISZ);
-    size_t a = nd_size(), b = nd_size();
-    ASSUME(a < CNT && b < CNT);
     size_t e = nd_size(), off = nd_size();
     ASSUME(e < CNT && off < ISZ);
     /* only the observed byte of each element needs a name; everything else stays symbolic */
@@ -350,6 +348,14 @@ void h_swap(void) {
     if (e != a && e != b) ASSERT(store[e * ISZ + off] == before_e, "swap: other elements untouched");
     ASSERT(l.length == CNT && l.data == store, "swap: list struct unchanged");
     if (a != b) WITNESS("swap distinct");
+}
+void h_swap(void) {
+    /* the index pair is chosen by the solver; the case split only gives symbolic execution constant pointers in each branch */
+    unsigned sel = nd_u8();
+    ASSUME(sel < 9);
+    for (unsigned a = 0; a < 3; ++a)
+        for (unsigned b = 0; b < 3; ++b)
+            if (sel == a * 3 + b) swap_case(a, b);
 }
 #endif
 
